@@ -506,6 +506,10 @@ func (e *SpecEnv) localByName(name string) *Val {
 	}
 	p := fr.regs[best]
 	a := e.run.addrOf(p, e.te)
+	if a.Kind == ALocal && e.st.cells[a.Cell] == nil {
+		// declared on another branch of this frame than the one this state went through: no value on this path
+		return freshVal(derefType(best.Type()), "nopath."+name, e.te)
+	}
 	return e.run.load(e.st, a, derefType(best.Type()), e.te)
 }
 
